@@ -1259,8 +1259,12 @@ _BTree_setstate(BTree *self, PyObject *state, int noval)
         }
         else
         {
+            /* PyObject_TypeCheck, not PyObject_IsInstance:  the child is
+             * about to be used as a C struct, so its real type counts,
+             * not what its __class__ attribute claims.
+             */
             if (!(SameType_Check(self, v) ||
-                  PyObject_IsInstance(v, (PyObject *)leaftype)))
+                  PyObject_TypeCheck(v, leaftype)))
             {
                 PyErr_Format(PyExc_TypeError,
                              "tree child %s is neither %s nor %s",
